@@ -111,6 +111,9 @@ func runE2E(c *Ctx, e e2eCase, servers map[string]*httptest.Server) {
 	var seen [][]byte
 	var mu sync.Mutex
 	hopts := []connect.HandlerOption{connect.WithCodec(rawCodec{"raw"}), connect.WithCompression("rle", newRLEDecompressor, newRLECompressor), connect.WithCompressMinBytes(e.min)}
+	if e.sendComp == "X-Rle" { // an algorithm registered under a name with upper-case letters, on both sides
+		hopts = append(hopts, connect.WithCompression("X-Rle", newRLEDecompressor, newRLECompressor))
+	}
 	h := e2eHandler(e.kind, hopts, &seen, &mu)
 	var hc connect.HTTPClient
 	url := "http://h/s/m"
@@ -126,6 +129,9 @@ func runE2E(c *Ctx, e e2eCase, servers map[string]*httptest.Server) {
 		url = srv.URL + "/s/m"
 	}
 	copts := []connect.ClientOption{connect.WithCodec(rawCodec{"raw"}), connect.WithAcceptCompression("rle", newRLEDecompressor, newRLECompressor), connect.WithCompressMinBytes(e.min)}
+	if e.sendComp == "X-Rle" {
+		copts = append(copts, connect.WithAcceptCompression("X-Rle", newRLEDecompressor, newRLECompressor))
+	}
 	if e.sendComp != "" {
 		copts = append(copts, connect.WithSendCompression(e.sendComp))
 	}
@@ -295,7 +301,7 @@ func streamE2E(c *Ctx) {
 						msgs = [][]byte{{7}, {}, {}, {3}}
 					}
 					e := e2eCase{proto: proto, kind: kind, codec: "raw", transport: transport, msgs: msgs,
-						sendComp: []string{"", "rle", "gzip"}[r.Intn(3)], min: []int{0, 0, 1, 10, 100}[r.Intn(5)]}
+						sendComp: []string{"", "rle", "gzip", "X-Rle"}[r.Intn(4)], min: []int{0, 0, 1, 10, 100}[r.Intn(5)]}
 					runE2E(c, e, nil)
 				}
 			}
@@ -304,6 +310,7 @@ func streamE2E(c *Ctx) {
 	protoCodecE2E(c)
 	foreignPeersE2E(c)
 	duplexBlockedSendE2E(c)
+	readLimitOptionOrderProbes(c, "e2e-call-failed")
 	// a model-comparable op so that the stream is never empty for the differ
 	c.Emit("code.str 1", hx([]byte(connect.CodeCanceled.String())), false)
 }
